@@ -52,6 +52,27 @@ def _subst(e, env, depth=0):
     return T().visit(copy.deepcopy(e))
 
 
+def _inline_helpers(m: Module, e, depth=0):
+    """Inline calls to module-level helper functions whose body is a single return expression."""
+    if depth > 4:
+        return e
+    funcs = m.functions()
+
+    class T(ast.NodeTransformer):
+        def visit_Call(self, n):
+            self.generic_visit(n)
+            if isinstance(n.func, ast.Name) and n.func.id in funcs and not n.keywords:
+                f = funcs[n.func.id]
+                body = [x for x in f.body if not (isinstance(x, ast.Expr) and isinstance(x.value, ast.Constant))]
+                params = [a.arg for a in f.args.args]
+                if len(body) == 1 and isinstance(body[0], ast.Return) and body[0].value is not None and len(params) == len(n.args) \
+                        and not f.decorator_list:
+                    return _inline_helpers(m, _subst(body[0].value, dict(zip(params, n.args))), depth + 1)
+            return n
+    import copy
+    return T().visit(copy.deepcopy(e))
+
+
 def _const_int(e):
     """Constant-fold an int expression (literals, **, <<, *, +, -)."""
     if isinstance(e, ast.Constant) and isinstance(e.value, int) and not isinstance(e.value, bool):
@@ -92,7 +113,7 @@ def hash_descriptor(ctx: Ctx):
     rets = [n for n in walk_no_nested(fn) if isinstance(n, ast.Return)]
     if len(rets) != 1 or any(isinstance(n, (ast.If, ast.For, ast.While, ast.Try, ast.Match)) for n in walk_no_nested(fn)):
         raise AnalysisError("deterministic_proba is no longer straight-line code with one return: idiom not recognised")
-    e = _subst(rets[0].value, env)
+    e = _inline_helpers(m, _subst(rets[0].value, env))
     d = {"fn": fn, "mod": m, "expr": norm(e), "param": p}
     # <int> / <divisor>
     if not (isinstance(e, ast.BinOp) and isinstance(e.op, ast.Div)):
@@ -177,6 +198,35 @@ def rule_hash_descriptor(ctx: Ctx, rid="C12.HASH-DESCRIPTOR"):
     return d
 
 
+def rule_hash_pure(ctx: Ctx, rid="C01.HASH-PRIMITIVE"):
+    """The position is a function of a hashlib digest of the key only (whatever the algorithm,
+    slice or divisor): no process-dependent primitive."""
+    d = hash_descriptor(ctx)
+    con = f"{BIN}:deterministic_proba"
+    site = d["mod"].site(d["fn"])
+    if "problem" in d:
+        ok = "hashlib" in d["expr"] or d.get("algo")
+        ctx.rep.check(bool(ok), rid, con, f"position = {d['expr'][:80]}", site=site, text=d["problem"][:100])
+        return d
+    import hashlib
+    ok = d["algo"] in hashlib.algorithms_guaranteed
+    ctx.rep.check(ok, rid, con, f"position = {d['bits']}-bit slice of hashlib.{d['algo']}(key.encode({d['encoding']!r})) / {d['divisor']:#x}: "
+                  "no process-local entropy" if ok else f"the digest primitive {d['algo']} is not a hashlib algorithm", site=site,
+                  text=f"algo {d['algo']}")
+    return d
+
+
+def rule_whole_key(ctx: Ctx, rid="C09.WHOLE-KEY"):
+    d = hash_descriptor(ctx)
+    con = f"{BIN}:deterministic_proba[whole-key]"
+    site = d["mod"].site(d["fn"])
+    if "problem" in d:
+        ctx.rep.bad(rid, con, d["problem"], site=site, text=d["problem"][:120])
+        return
+    ctx.rep.check(d["input_is_param"], rid, con, "the whole key string is hashed unchanged" if d["input_is_param"] else
+                  f"the hashed string is not the key itself but {d['input']}", site=site, text=f"input {d['input']}")
+
+
 def rule_grid(ctx: Ctx, rid="C03.GRID"):
     d = hash_descriptor(ctx)
     con = f"{BIN}:deterministic_proba"
@@ -221,7 +271,7 @@ def _resolve_import(m: Module, name: str):
     return m.imports.get(name)
 
 
-def rule_choice_search(ctx: Ctx, rid="C03.BISECT-RIGHT"):
+def rule_choice_search(ctx: Ctx, rid="C03.BISECT-RIGHT", parts=("right", "clamp", "locate", "prefix")):
     """Weighted path: population[bisect_right(cum_weights, u*total, 0, n-1)] on prefix sums of the
     weights parameter in declared order."""
     m, fn = _choice(ctx)
@@ -236,7 +286,7 @@ def rule_choice_search(ctx: Ctx, rid="C03.BISECT-RIGHT"):
         nm = dotted(c.func)
         target = m.imports.get(nm, (None, None))
         real = target[1] if target[0] == "bisect" else nm.split(".")[-1]
-        ok = real in ("bisect", "bisect_right")
+        ok = real in ("bisect", "bisect_right") or "right" not in parts
         ctx.rep.check(ok, rid, con + f"[{nm}]", f"search resolves to bisect.{real} (right bisection: a unit on a boundary goes to the "
                       "next group, a zero-width group is never selected)" if ok else
                       f"search resolves to bisect.{real}: at u*total == a cumulative boundary (e.g. u=0 with a leading zero "
@@ -248,7 +298,7 @@ def rule_choice_search(ctx: Ctx, rid="C03.BISECT-RIGHT"):
         hi_e = args[3] if len(args) > 3 else next((k.value for k in c.keywords if k.arg == "hi"), None)
         hi_t = norm(_subst(hi_e, env)) if hi_e is not None else None
         n_e = norm(_subst(ast.Name("n", ast.Load()), env))
-        clamp_ok = lo == 0 and hi_t in ("len(population) - 1", "n - 1", f"{n_e} - 1")
+        clamp_ok = (lo == 0 and hi_t in ("len(population) - 1", "n - 1", f"{n_e} - 1")) or "clamp" not in parts
         ctx.rep.check(clamp_ok, rid.split(".")[0] + ".BISECT-CLAMP", con + f"[{nm} bounds]",
                       "search limited to lo=0, hi=n-1 (the index is always valid even if u*total rounds up to total)" if clamp_ok else
                       f"search bounds are lo={lo}, hi={hi_t}: without hi=n-1 a product that rounds up to the total indexes "
@@ -287,9 +337,19 @@ def rule_position_slice(ctx: Ctx, rid="C10.POSITION-SLICE"):
                       f"hash position depends on more than the unit's key: argument {norm(c.args[0]) if c.args else '?'}"
                       + (" (and the id parameter is reassigned)" if stores else ""), site=m.site(c), text=norm(c))
     # no second hash primitive outside deterministic_proba
-    prim = [n for n in walk_no_nested(fn) if isinstance(n, ast.Call) and dotted(n.func)
-            and (dotted(n.func).startswith("hashlib.") or dotted(n.func) in ("hash", "md5", "sha1", "crc32", "zlib.crc32")
-                 or (dotted(n.func) == "int" and len(n.args) == 2))]
+    def is_prim(c, depth=0):
+        d = dotted(c.func)
+        if not d:
+            return False
+        if d.startswith("hashlib.") or d in ("hash", "md5", "sha1", "crc32", "zlib.crc32") or (d == "int" and len(c.args) == 2):
+            return True
+        # a call to another function of the module that (transitively) hashes, other than deterministic_proba
+        f = m.functions().get(d)
+        if f is not None and d != "deterministic_proba" and depth < 3:
+            return any(isinstance(x, ast.Call) and (is_prim(x, depth + 1) or dotted(x.func) == "deterministic_proba" and False)
+                       for x in ast.walk(f))
+        return False
+    prim = [n for n in walk_no_nested(fn) if isinstance(n, ast.Call) and is_prim(n)]
     ctx.rep.check(not prim, "C10.ONE-PRIMITIVE", con,
                   "deterministic_choice derives positions only through deterministic_proba" if not prim else
                   f"a second position primitive is used in deterministic_choice: {norm(prim[0])[:80]}",
@@ -372,6 +432,9 @@ def rule_no_entropy(ctx: Ctx, rid="C01.NO-ENTROPY"):
                         hits.append((c, full))
                 elif isinstance(c, ast.Attribute) and dotted(c) in ("os.environ", "sys.argv", "sys.flags"):
                     hits.append((c, dotted(c)))
+            # a bare expression statement (logging, print) does not feed a result
+            bare = {id(st.value) for st in walk_no_nested(fn) if isinstance(st, ast.Expr)}
+            hits = [(c, f) for c, f in hits if id(c) not in bare]
             ctx.rep.unit(f"{m.rel}:{name}")
             if hits:
                 c, full = hits[0]
@@ -449,6 +512,8 @@ def rule_no_shared_state(ctx: Ctx, rid="C17.NO-SHARED-WRITES", modules=None):
                     glob.update(n.names)
             self_name = fn.args.args[0].arg if fn.args.args else "self"
             for n in walk_no_nested(fn):
+                if isinstance(n, (ast.Assign, ast.AugAssign, ast.AnnAssign, ast.Delete, ast.Call)) and _under_lock(fn, n):
+                    continue      # serialised by a lock: not a data race
                 targets = []
                 if isinstance(n, ast.Assign):
                     targets = n.targets
@@ -479,6 +544,90 @@ def rule_no_shared_state(ctx: Ctx, rid="C17.NO-SHARED-WRITES", modules=None):
                         ctx.rep.bad(rid, q, f"setattr on a class at run time ({norm(n)[:60]})", site=m.site(n), text=norm(n)[:100])
     ctx.rep.ok(rid, "src/pyab_experiment (outside sly)", f"{nfun} functions scanned for shared-state writes")
     ctx.rep.floor("functions scanned for shared-state writes", nfun, 25 if not modules else 2)
+
+
+def rule_value_keyed_caches(ctx: Ctx, rid="C01.NO-VALUE-KEYED-CACHE", modules=None):
+    """functools caches compare their arguments with == / hash: 1, 1.0 and True (and 0, 0.0, -0.0,
+    False; (1, 2) and (1.0, 2.0)) share one slot although str() distinguishes them and their types
+    differ.  A cache on a function that can receive such values changes later results; one whose
+    parameters are all annotated str/bytes is transparent."""
+    n = 0
+    for m in ctx.src.own_modules():
+        if modules and m.rel not in modules:
+            continue
+        for fn in [x for x in ast.walk(m.tree) if isinstance(x, (ast.FunctionDef, ast.AsyncFunctionDef))]:
+            n += 1
+            for d in fn.decorator_list:
+                dn = dotted(d.func) if isinstance(d, ast.Call) else dotted(d)
+                if dn in CACHE_DECORATORS:
+                    a = fn.args
+                    anns = [x.annotation for x in a.args + a.kwonlyargs if x.arg not in ("self", "cls")]
+                    if a.vararg:
+                        anns.append(a.vararg.annotation)
+                    if a.kwarg:
+                        anns.append(a.kwarg.annotation)
+                    transparent = anns and all(an is not None and norm(an) in ("str", "bytes") for an in anns)
+                    ctx.rep.check(transparent, rid, f"{m.rel}:{fn.name}[@{dn}]",
+                                  "cache on a function of str arguments only: transparent" if transparent else
+                                  f"@{dn} on {fn.name}({norm(a)}): arguments that compare equal but differ in type or text (1, 1.0, True; "
+                                  "(1, 2) and (1.0, 2.0)) are answered from one slot, so a result depends on what was asked before",
+                                  site=m.site(fn), text=f"@{dn} {fn.name}({norm(a)})")
+            # call form: lru_cache(...)(f) / cache(f)
+            for c in walk_no_nested(fn):
+                if isinstance(c, ast.Call):
+                    inner = c.func if isinstance(c.func, ast.Call) else None
+                    dn = dotted(inner.func) if inner is not None else dotted(c.func)
+                    if dn in CACHE_DECORATORS and (inner is not None or (c.args and not c.keywords)):
+                        if inner is None and dn.endswith("lru_cache") and c.args and isinstance(c.args[0], ast.Constant):
+                            continue   # lru_cache(128) without application
+                        ctx.rep.bad(rid, f"{m.rel}:{fn.name}[{norm(c)[:40]}]",
+                                    f"wraps a function in {dn}: calls whose arguments compare equal (1, 1.0, True) are answered from "
+                                    "one slot, so a result depends on what was asked before", site=m.site(c), text=norm(c)[:100])
+    ctx.rep.ok(rid, "src/pyab_experiment (outside sly)", f"{n} functions scanned for ==-keyed caches", nontrivial=False)
+
+
+def rule_retained_arguments(ctx: Ctx, rid="C16.NO-RETAINED-ARGUMENT", modules=None):
+    """No function keeps a reference to a caller's (mutable) argument in module- or class-level
+    storage: data derived from it would go stale when the caller mutates the object in place."""
+    n = 0
+    for m in ctx.src.own_modules():
+        if modules and m.rel not in modules:
+            continue
+        mm = module_level_mutables(m)
+        mod_names = {t.id for st in m.tree.body if isinstance(st, (ast.Assign, ast.AnnAssign))
+                     for t in (st.targets if isinstance(st, ast.Assign) else [st.target]) if isinstance(t, ast.Name)}
+        for fn in [x for x in ast.walk(m.tree) if isinstance(x, (ast.FunctionDef, ast.AsyncFunctionDef))]:
+            n += 1
+            params = {a.arg for a in fn.args.args + fn.args.kwonlyargs} - {"self", "cls"}
+            glob = _globals_of(fn)
+            for st in walk_no_nested(fn):
+                if not isinstance(st, ast.Assign):
+                    continue
+                for t in st.targets:
+                    shared = (isinstance(t, ast.Name) and t.id in glob) or \
+                             (isinstance(t, ast.Subscript) and isinstance(t.value, ast.Name) and t.value.id in mod_names and t.value.id not in _locals(fn)) or \
+                             (isinstance(t, ast.Attribute) and dotted(t.value) in set(m.classes()) | {"cls"})
+                    if not shared:
+                        continue
+                    # does the stored value alias a parameter (not a copy)?
+                    vals = st.value.elts if isinstance(st.value, (ast.Tuple, ast.List)) else [st.value]
+                    alias = [v for v in vals if isinstance(v, ast.Name) and v.id in params]
+                    key_alias = isinstance(t, ast.Subscript) and any(isinstance(x, ast.Call) and dotted(x.func) == "id" for x in ast.walk(t.slice))
+                    if alias or key_alias:
+                        ctx.rep.bad(rid, f"{m.rel}:{fn.name}", f"`{norm(st)[:70]}` keeps a reference to the caller's argument "
+                                    f"`{alias[0].id if alias else 'id(...)'}` in shared storage: derived data reused on a later call is stale "
+                                    "once the caller mutates that object in place", site=m.site(st), text=norm(st)[:100])
+    ctx.rep.ok(rid, "src/pyab_experiment (outside sly)", f"{n} functions scanned for retained caller arguments", nontrivial=False)
+
+
+def _under_lock(fn, node):
+    """Is `node` inside a `with <something lock-like>:` block of fn?"""
+    for w in ast.walk(fn):
+        if isinstance(w, ast.With) and any("lock" in (norm(i.context_expr).lower()) for i in w.items):
+            for x in ast.walk(w):
+                if x is node:
+                    return True
+    return False
 
 
 def _locals(fn):
@@ -865,41 +1014,88 @@ def rule_instance_only(ctx: Ctx, rid="C11.INSTANCE-ONLY"):
     ctx.rep.floor("evaluator attribute definitions and writes", n, 3)
 
 
-def rule_installed_function(ctx: Ctx, rid="C11.INSTALLED-FUNCTION"):
+def _exec_site(ctx: Ctx, m, c, rec):
+    """(function containing the single exec, exec call) looking into recompile and the methods /
+    module functions it calls."""
+    cands = [rec]
+    for x in walk_no_nested(rec):
+        if isinstance(x, ast.Call) and dotted(x.func):
+            d = dotted(x.func)
+            if d.startswith("self.") or d.startswith("cls.") or d.startswith(c.name + "."):
+                f = m.get_method(c, d.split(".")[-1], required=False)
+                if f is not None:
+                    cands.append(f)
+            elif d in m.functions():
+                cands.append(m.functions()[d])
+    out = []
+    for f in cands:
+        for n in walk_no_nested(f):
+            if isinstance(n, ast.Call) and dotted(n.func) in ("exec", "eval"):
+                out.append((f, n))
+    return out
+
+
+def _wraps_in_cache(ctx: Ctx, m, e, depth=0):
+    """Does expression e (transitively through module-level helpers) apply a functools cache?"""
+    for n in ast.walk(e):
+        if isinstance(n, ast.Call):
+            d = dotted(n.func) or (dotted(n.func.func) if isinstance(n.func, ast.Call) else None)
+            if d in CACHE_DECORATORS or (d or "").split(".")[-1] in ("lru_cache", "cache"):
+                return d
+            f = m.functions().get(d) if d else None
+            if f is not None and depth < 3:
+                for x in ast.walk(f):
+                    if isinstance(x, ast.Call):
+                        dd = dotted(x.func) or (dotted(x.func.func) if isinstance(x.func, ast.Call) else None)
+                        if dd in CACHE_DECORATORS or (dd or "").split(".")[-1] in ("lru_cache", "cache"):
+                            return f"{d} -> {dd}"
+    return None
+
+
+def rule_installed_function(ctx: Ctx, rid="C11.INSTALLED-FUNCTION", strict=True, facets=("exec-sites", "namespace", "installed")):
     """exec() runs the generated text with a dict created in this call as locals; the function
-    installed is read from that dict (nothing wraps or caches it); the experiment name is used
-    only as that lookup key."""
+    installed is read from that dict (nothing wraps or caches it)."""
     m, c = _evaluator(ctx)
     rec = m.get_method(c, "recompile")
     env, multi = _single_assign_env(rec)
-    execs = [n for n in walk_no_nested(rec) if isinstance(n, ast.Call) and dotted(n.func) in ("exec", "eval")]
+    pfx = rid.split(".")[0]
+    sites = _exec_site(ctx, m, c, rec)
     allexec = [n for mod in ctx.src.own_modules() for n in ast.walk(mod.tree)
                if isinstance(n, ast.Call) and dotted(n.func) in ("exec", "eval", "__import__", "importlib.import_module")]
-    ctx.rep.check(len(allexec) == 1 and len(execs) == 1, "C13.EXEC-SITES", f"{EV}:ExperimentEvaluator.recompile[exec]",
-                  "exactly one exec/eval site in the package (outside sly), in recompile" if len(allexec) == 1 and len(execs) == 1 else
-                  f"{len(allexec)} dynamic-execution sites in the package", text=f"{len(allexec)} exec sites")
-    if len(execs) != 1:
-        raise AnalysisError("recompile no longer contains exactly one exec() call")
-    ex = execs[0]
+    if "exec-sites" in facets:
+        ctx.rep.check(len(allexec) == 1 and len(sites) == 1, pfx + ".EXEC-SITES", f"{EV}:ExperimentEvaluator.recompile[exec]",
+                      "exactly one exec/eval site in the package (outside sly), reached from recompile" if len(allexec) == 1 and len(sites) == 1 else
+                      f"{len(allexec)} dynamic-execution sites in the package, {len(sites)} reached from recompile",
+                      text=f"{len(allexec)} exec sites")
+    if len(sites) != 1:
+        if strict:
+            raise AnalysisError("recompile (with the helpers it calls) no longer contains exactly one exec() call")
+        ctx.rep.note("exec site idiom not recognised: installed-function facets skipped for this property")
+        return []
+    host, ex = sites[0]
+    henv, _ = _single_assign_env(host)
     loc = ex.args[2] if len(ex.args) > 2 else next((k.value for k in ex.keywords if k.arg == "locals"), None)
     glb = ex.args[1] if len(ex.args) > 1 else next((k.value for k in ex.keywords if k.arg == "globals"), None)
-    con = f"{EV}:ExperimentEvaluator.recompile"
-    ok = isinstance(loc, ast.Name) and loc.id in env and isinstance(env[loc.id], (ast.Dict, ast.Call)) and (
-        (isinstance(env[loc.id], ast.Dict) and not env[loc.id].keys) or dotted(getattr(env[loc.id], "func", None)) == "dict")
-    ctx.rep.check(ok, "C11.FRESH-NAMESPACE", con + "[exec locals]",
-                  f"exec locals = `{loc.id}`, an empty dict created in this call" if ok else
-                  f"exec locals is {norm(loc) if loc is not None else 'missing'}: not a fresh dict of this call (compiled names "
-                  "can leak into or come from longer-lived storage)", site=m.site(ex), text=f"exec locals {norm(loc) if loc is not None else None}")
-    gok = glb is None or (isinstance(glb, ast.Constant) and glb.value is None) or (isinstance(glb, ast.Call) and dotted(glb.func) == "globals")
-    ctx.rep.check(gok, "C11.FRESH-NAMESPACE", con + "[exec globals]", "exec globals = the evaluator module's globals (read-only use)"
-                  if gok else f"exec globals is {norm(glb)}", site=m.site(ex), text=f"exec globals {norm(glb) if glb is not None else None}")
-    if ok:
-        # the locals dict is used only by exec and by one subscript read
-        uses = [n for n in walk_no_nested(rec) if isinstance(n, ast.Name) and n.id == loc.id and isinstance(n.ctx, ast.Load)]
-        ctx.rep.check(len(uses) == 2, "C11.FRESH-NAMESPACE", con + f"[{loc.id} uses]",
-                      f"`{loc.id}` is read twice: by exec and by the lookup of the compiled function" if len(uses) == 2 else
-                      f"`{loc.id}` is used {len(uses)} times: it may be stored elsewhere", text=f"{loc.id} uses {len(uses)}")
-    # the installed function
+    con = f"{EV}:ExperimentEvaluator.{host.name}"
+    ok = isinstance(loc, ast.Name) and loc.id in henv and isinstance(henv[loc.id], (ast.Dict, ast.Call)) and (
+        (isinstance(henv[loc.id], ast.Dict) and not henv[loc.id].keys) or dotted(getattr(henv[loc.id], "func", None)) == "dict")
+    if "namespace" in facets:
+        ctx.rep.check(ok, pfx + ".FRESH-NAMESPACE", con + "[exec locals]",
+                      f"exec locals = `{loc.id}`, an empty dict created in this call" if ok else
+                      f"exec locals is {norm(loc) if loc is not None else 'missing'}: not a fresh dict of this call (compiled names "
+                      "can leak into or come from longer-lived storage)", site=m.site(ex), text=f"exec locals {norm(loc) if loc is not None else None}")
+        gok = glb is None or (isinstance(glb, ast.Constant) and glb.value is None) or (isinstance(glb, ast.Call) and dotted(glb.func) == "globals")
+        ctx.rep.check(gok, pfx + ".FRESH-NAMESPACE", con + "[exec globals]", "exec globals = the evaluator module's globals (read-only use)"
+                      if gok else f"exec globals is {norm(glb)}", site=m.site(ex), text=f"exec globals {norm(glb) if glb is not None else None}")
+    if "installed" not in facets:
+        return []
+    # values that may be installed into evaluator attributes other than the fingerprint
+    assigned = {}
+    for st in walk_no_nested(rec):
+        if isinstance(st, ast.Assign):
+            for t in st.targets:
+                if isinstance(t, ast.Name):
+                    assigned.setdefault(t.id, []).append(st.value)
     installs = []
     for st in walk_no_nested(rec):
         if isinstance(st, ast.stmt):
@@ -907,21 +1103,23 @@ def rule_installed_function(ctx: Ctx, rid="C11.INSTALLED-FUNCTION"):
                 if rhs is not None and a != "_checksum":
                     installs.append((st, a, rhs))
     for st, a, rhs in installs:
-        r = _subst(rhs, {k: v for k, v in env.items() if k != (loc.id if ok else None)})
-        direct = isinstance(r, ast.Subscript) and isinstance(r.value, ast.Name) and ok and r.value.id == loc.id
-        if direct:
-            key = _subst(r.slice, env)
-            kt = norm(key)
-            ctx.rep.ok(rid, con + f"[{a} :=]", f"installs {loc.id}[{kt}]: the function object the generated code defined", site=m.site(st))
+        vals = assigned.get(rhs.id, [rhs]) if isinstance(rhs, ast.Name) else [rhs]
+        cache = None
+        for v in vals:
+            cache = cache or _wraps_in_cache(ctx, m, v)
+        direct = all(isinstance(_subst(v, {k: x for k, x in env.items() if not (ok and k == loc.id)}), ast.Subscript) for v in vals) and host is rec
+        if cache:
+            ctx.rep.bad(rid, f"{EV}:ExperimentEvaluator.recompile[{a} :=]", f"the compiled function is wrapped by {cache} before it is "
+                        "installed: calls with arguments that compare equal (1, 1.0, True) are answered from a cache keyed by ==, so a "
+                        "result depends on earlier calls", site=m.site(st), text=f"{a} := cache-wrapped {norm(rhs)[:80]}")
+        elif direct:
+            ctx.rep.ok(rid, f"{EV}:ExperimentEvaluator.recompile[{a} :=]", f"installs {norm(vals[0])[:50]}: the function object the "
+                       "generated code defined", site=m.site(st))
+        elif strict and a == "run_experiment":
+            raise AnalysisError(f"installed function expression not understood: {norm(rhs)[:100]}")
         else:
-            wrappers = [dotted(n.func) for n in ast.walk(r) if isinstance(n, ast.Call) and dotted(n.func)]
-            cache = [w for w in wrappers if w in CACHE_DECORATORS or w.split(".")[-1] in ("lru_cache", "cache")]
-            if cache:
-                ctx.rep.bad(rid, con + f"[{a} :=]", f"the compiled function is wrapped by {cache[0]} before it is installed: calls "
-                            "with arguments that compare equal (1, 1.0, True) are answered from a cache keyed by ==, so a result "
-                            "depends on earlier calls", site=m.site(st), text=f"{a} := {norm(rhs)[:100]}")
-            elif a in ("run_experiment",) or "code_holder" in norm(rhs):
-                raise AnalysisError(f"installed function expression not understood: {norm(rhs)[:100]}")
+            ctx.rep.ok(rid, f"{EV}:ExperimentEvaluator.recompile[{a} :=]", f"stores {norm(rhs)[:50]} (no cache wrapper)", site=m.site(st),
+                       nontrivial=False)
     return installs
 
 
@@ -1252,6 +1450,12 @@ def rule_stats(ctx: Ctx):
                 return (sp.Max if d == "max" else sp.Min)(*args)
             if d in env and callable(env[d]):
                 return env[d](*args)
+            f = m.functions().get(d)
+            if f is not None and not e.keywords:
+                body = [x for x in f.body if not (isinstance(x, ast.Expr) and isinstance(x.value, ast.Constant))]
+                ps = [a_.arg for a_ in f.args.args]
+                if len(body) == 1 and isinstance(body[0], ast.Return) and len(ps) == len(args):
+                    return to_sym(body[0].value, {**sym, **dict(zip(ps, args))})
             raise AnalysisError(f"stats: call {d} not modelled")
         if isinstance(e, ast.Tuple):
             return tuple(to_sym(x, env) for x in e.elts)
@@ -1302,6 +1506,15 @@ def rule_stats(ctx: Ctx):
         "wald": lambda zz: (p, zz * sp.sqrt(p * (1 - p) / n)),
     }
     seen_methods = set()
+    cenv, _ = _single_assign_env(ci)
+
+    def is_method_expr(x):
+        """`method` possibly passed through str methods that keep it a name (lower/strip/casefold)."""
+        x = _subst(x, cenv)
+        while isinstance(x, ast.Call) and isinstance(x.func, ast.Attribute) and x.func.attr in ("lower", "strip", "casefold", "upper") \
+                and not x.args:
+            x = x.func.value
+        return isinstance(x, ast.Name) and x.id == "method"
     for pth in paths:
         # which method does this path stand for?
         meth = None
@@ -1310,8 +1523,7 @@ def rule_stats(ctx: Ctx):
             if isinstance(e, tuple) and e[0] == "test":
                 t, truth = e[1], e[2]
                 lit = None
-                if isinstance(t, ast.Compare) and len(t.ops) == 1 and norm(t.left) in ("method.lower()", "method", "method.casefold()",
-                                                                                        "method.lower().strip()"):
+                if isinstance(t, ast.Compare) and len(t.ops) == 1 and is_method_expr(t.left):
                     c0 = t.comparators[0]
                     if isinstance(t.ops[0], ast.Eq) and isinstance(c0, ast.Constant):
                         lit = [c0.value]
@@ -1369,6 +1581,8 @@ def rule_stats(ctx: Ctx):
                                   "z = probit((1-confidence)/2)" if okz else f"z = probit({arg})", site=m.site(st), text=f"z arg {arg}")
                     env[nm] = z
                     zsym = nm
+                elif is_method_expr(st.value):
+                    continue
                 else:
                     env[nm] = to_sym(st.value, env)
         env["probit"] = lambda x: z
